@@ -3,7 +3,7 @@
 # worktree of /repo (VERIF_REPO points the checks at it; /repo itself is not touched), the
 # property's quick check must exit 1 with a VIOLATION line, and the worktree is removed.
 # usage: seed_regress.sh [id ...]     (default: all)
-cd /verif || exit 2
+V=${VERIF_DIR:-/verif}; cd "$V" || exit 2
 . ./env.sh
 go build -o bin/vcheck ./cmd/vcheck || exit 2
 ids=("$@"); [ ${#ids[@]} -eq 0 ] && ids=($(ls seeded))
@@ -14,7 +14,7 @@ git -C /repo worktree add -q --detach "$W/wt" HEAD || exit 2
 for id in "${ids[@]}"; do
   prop=$(python3 -c "import json;print(json.load(open('seeded/$id/meta.json'))['property'])")
   git -C "$W/wt" checkout -q -- . ; git -C "$W/wt" clean -fdq
-  if ! git -C "$W/wt" apply "/verif/seeded/$id/patch.diff" 2>/dev/null; then echo "$id: patch does not apply"; fail=1; continue; fi
+  if ! git -C "$W/wt" apply "$V/seeded/$id/patch.diff" 2>/dev/null; then echo "$id: patch does not apply"; fail=1; continue; fi
   out="$W/out.txt"; t0=$(date +%s)
   VERIF_REPO="$W/wt" VCHECK_EVIDENCE_DIR="$W/ev" ./bin/vcheck check --tier quick "$prop" > "$out" 2>&1; rc=$?
   n=$(grep -c "^VIOLATION" "$out")
